@@ -75,6 +75,7 @@ type Exec struct {
 	inSpec   int
 	inQuant  int
 	idxUses  map[string]map[string]bool
+	lookupAtEnd bool // local-variable lookup sees every definition of the block it is evaluated at
 	constGlobals map[string]bool
 }
 
